@@ -350,6 +350,45 @@ def run (cfg : List (Indexer Id Res L)) (defaultBackoff : Nat) :
 
 end Step
 
+/-! ### the key of the memories (`inventory.ResourceMemories._build_key`) as a parameter
+
+  `State.mem` above is one memory per object: what the code does since kopf 8c8cff5 (the key is the
+  uid, or — for the rare objects without a uid — the surrogate identity kind/apiVersion/name/
+  namespace/creationTimestamp, the same as `queueing.get_uid`). Before it the key was `uid or ''`:
+  all objects without a uid had ONE memory (repaired finding C17-F5). `stepKeyed mk` is the same
+  mechanism with the memories kept under `mk obj`: `recall` reads `memories[mk obj]`, `forget`
+  deletes it, the new indexing state is stored there. With an injective `mk` it is `step`
+  (`Kopf.C17.keyed_follows`), with a constant one it is the old code (`shared_memory_witness`). -/
+structure KState (Id K V O M : Type) where
+  ixs : Id → Index (Option K) V O
+  mem : M → Id → Option HState              -- `memories._items[key].indexing_memory.indexing_state`
+
+def KState.init {Id K V O M : Type} : KState Id K V O M := ⟨fun _ => Index.empty, fun _ _ => none⟩
+
+/-- what the mechanism sees of the memories: each object through its key -/
+def KState.view {Id K V O M : Type} (mk : O → M) (s : KState Id K V O M) : State Id K V O :=
+  ⟨s.ixs, fun o => s.mem (mk o)⟩
+
+section Keyed
+variable {Id Res L K V O M : Type} [DecidableEq Id] [DecidableEq Res] [DecidableEq L]
+  [DecidableEq K] [DecidableEq O] [DecidableEq M]
+
+def stepKeyed (mk : O → M) (cfg : List (Indexer Id Res L)) (defaultBackoff : Nat)
+    (s : KState Id K V O M) (e : Event Id Res L K V O) : Option (KState Id K V O M) :=
+  match step cfg defaultBackoff (s.view mk) e with
+  | none => none
+  | some s' => some ⟨s'.ixs, upd s.mem (mk e.obj) (s'.mem e.obj)⟩
+
+def runKeyed (mk : O → M) (cfg : List (Indexer Id Res L)) (defaultBackoff : Nat) :
+    KState Id K V O M → List (Event Id Res L K V O) → Option (KState Id K V O M)
+  | s, [] => some s
+  | s, e :: es =>
+    match stepKeyed mk cfg defaultBackoff s e with
+    | none => none
+    | some s' => runKeyed mk cfg defaultBackoff s' es
+
+end Keyed
+
 /-! ### reference specification (the documented rules, per index and per object) -/
 
 section Ref
